@@ -15,7 +15,7 @@ Definition ann_jitin_interval (l : nat) : annot :=
   | 1%nat => ALoop [("k", KInt); ("t", KInt); ("data", KArr)]
                    (fun st0 st => 0 <= getZ st "k" /\ 0 <= getZ st "t")
   | 2%nat => ALoop [("t", KInt)] (fun st0 st => getZ st0 "t" <= getZ st "t")
-  | 3%nat => ALoop [("k", KInt); ("t", KInt); ("data", KArr)]
+  | 4%nat => ALoop [("k", KInt); ("t", KInt); ("data", KArr)]
                    (fun st0 st => getZ st "k" = getZ st0 "k" /\ 0 <= getZ st "t")
   | _ => ANone
   end.
